@@ -97,6 +97,8 @@ def _reindex(prog, keep):
     new = copy.deepcopy(prog)
     new['instrs'] = new_instrs
     new['outputs'] = outs
+    # the prelude (instructions executed before the inputs are wrapped) shrinks with what is dropped from it
+    new['npre'] = sum(1 for j in range(prog.get('npre', 0)) if j in keep)
     reflag(new)
     return new
 
@@ -152,7 +154,7 @@ def simplify_program(run, c, sig, props, budget):
                 run = cand
                 done = True
         # (b) replace it by a trivial one of the same shape
-        if not done:
+        if not done and j >= prog.get('npre', 0):      # (a prelude instruction cannot refer to an input)
             triv = _trivial(prog['instrs'][j])
             if triv is not None:
                 cand = copy.deepcopy(run)
